@@ -60,6 +60,11 @@ func Run(c *vlib.Ctx, scns []*Scn, o Opts) {
 			fmt.Sscanf(b, "%d", &s.Bound)
 		}
 	}
+	if os.Getenv("VERIF_PB") != "" {
+		for _, s := range scns {
+			s.PreemptionBounding = true
+		}
+	}
 	byName := map[string]*Scn{}
 	for _, s := range scns {
 		if byName[s.Name] != nil {
@@ -113,6 +118,7 @@ func Run(c *vlib.Ctx, scns []*Scn, o Opts) {
 	}
 	silence()
 	defer restore()
+	vsched.DumpAllTraces = os.Getenv("VERIF_DUMPTRACES") != ""
 	// scenario-level sharding through a shared claim directory (dynamic load balancing)
 	for i := range scns {
 		i := i
@@ -159,6 +165,10 @@ func Run(c *vlib.Ctx, scns []*Scn, o Opts) {
 		for _, sm := range st.Sample {
 			if i < 4*c.Shards {
 				c.Sample(map[string]any{"scenario": s.Name, "execution": sm})
+			}
+			if os.Getenv("VERIF_DUMPTRACES") != "" {
+				fmt.Fprintf(savedErr, "TRACE %s %s\n", s.Name, sm)
+				continue
 			}
 			break
 		}
